@@ -5,7 +5,9 @@
        FINISHED     <->  the future holds the outputs,           the process is closed, its hooks are released
        EXCEPTED e   <->  the future holds exception e,            closed, hooks released
        KILLED msg   <->  the future holds KilledError(msg text),  closed, hooks released
-       live         <->  the future is pending (or was cancelled by its owner), not closed, hooks in place.
+       live         <->  the future is pending (or was cancelled by its owner), not closed, hooks in place;
+     in a terminal state the listeners have received exactly one terminal notification, of the kind of that state, and
+     every registered cleanup has run exactly once (after the notification); while the process is live neither has happened.
 
    The invariant [J] is guarded by the transitioning flag: inside a transition (hooks, listeners) the views are
    updated one after the other.  Operations are specified as Hoare triples over three levels:
@@ -27,6 +29,24 @@ Definition unresolved (pf : pfstate) : Prop := pf = PfPending \/ pf = PfCancelle
 Definition killed_text (msg : option (option string)) : string :=
   match msg with Some (Some t) => t | _ => ""%string end.
 
+(* the marks of a trace: terminal notifications of the listeners and executed cleanups *)
+Definition term_note (n : string) : bool :=
+  String.eqb n "on_process_finished" || String.eqb n "on_process_excepted" || String.eqb n "on_process_killed".
+Definition is_mark (e : event) : bool :=
+  match e with EvListener n => term_note n | EvCleanup _ => true | _ => false end.
+Definition marks (tr : list event) : list event := filter is_mark tr.
+Definition note_of (s : pstate) : string :=
+  match s with
+  | SFinished _ _ => "on_process_finished" | SExcepted _ => "on_process_excepted" | SKilled _ => "on_process_killed"
+  | _ => ""
+  end.
+
+Lemma marks_app a b : marks (a ++ b) = marks a ++ marks b.
+Proof. apply filter_app. Qed.
+
+Lemma marks_snoc tr e : is_mark e = false -> marks (tr ++ [e]) = marks tr.
+Proof. intro H. rewrite marks_app. cbn. rewrite H. apply app_nil_r. Qed.
+
 (* the terminal part of the state: None for a live process *)
 Definition tv (s : option pstate) : option pstate :=
   match s with
@@ -36,16 +56,20 @@ Definition tv (s : option pstate) : option pstate :=
   | _ => None
   end.
 
-Definition agree_of (t : option pstate) (pf : pfstate) (cl hk : bool) (outs : list (string * val)) : Prop :=
+Definition agree_of (t : option pstate) (pf : pfstate) (cl hk : bool) (outs : list (string * val))
+           (mk : list event) (cls : list nat) : Prop :=
   match t with
-  | Some (SFinished _ _) => pf = PfResult outs /\ cl = true /\ hk = false
-  | Some (SExcepted e) => pf = PfExn e /\ cl = true /\ hk = false
-  | Some (SKilled m) => pf = PfExn (EKilled (killed_text m)) /\ cl = true /\ hk = false
-  | _ => unresolved pf /\ cl = false /\ hk = true
+  | Some (SFinished r ok) =>
+      pf = PfResult outs /\ cl = true /\ hk = false /\ mk = [EvListener "on_process_finished"; EvCleanup 0] /\ cls = []
+  | Some (SExcepted e) =>
+      pf = PfExn e /\ cl = true /\ hk = false /\ mk = [EvListener "on_process_excepted"; EvCleanup 0] /\ cls = []
+  | Some (SKilled m) =>
+      pf = PfExn (EKilled (killed_text m)) /\ cl = true /\ hk = false /\ mk = [EvListener "on_process_killed"; EvCleanup 0] /\ cls = []
+  | _ => unresolved pf /\ cl = false /\ hk = true /\ mk = [] /\ cls = [0]
   end.
 
 Definition agree (w : world) : Prop :=
-  agree_of (tv (st w)) (pfut w) (closed w) (hooks_alive w) (outputs w).
+  agree_of (tv (st w)) (pfut w) (closed w) (hooks_alive w) (outputs w) (marks (trace w)) (cleanups w).
 
 Lemma is_terminated_tv w : is_terminated w = match tv (st w) with Some _ => true | None => false end.
 Proof. unfold is_terminated. destruct (st w) as [[]|]; reflexivity. Qed.
@@ -58,16 +82,16 @@ Definition J (w : world) : Prop := nofault w /\ FI w /\ (transitioning w = false
 (* what an operation running inside a transition must leave alone *)
 Definition core_eq (w w' : world) : Prop :=
   tv (st w') = tv (st w) /\ pfut w' = pfut w /\ closed w' = closed w /\ hooks_alive w' = hooks_alive w
-  /\ outputs w' = outputs w.
+  /\ outputs w' = outputs w /\ marks (trace w') = marks (trace w) /\ cleanups w' = cleanups w.
 
 Lemma core_eq_refl w : core_eq w w.
 Proof. repeat split. Qed.
 
 Lemma core_eq_trans a b c : core_eq a b -> core_eq b c -> core_eq a c.
-Proof. intros (A1 & A2 & A3 & A4 & A5) (B1 & B2 & B3 & B4 & B5). repeat split; congruence. Qed.
+Proof. intros (A1 & A2 & A3 & A4 & A5 & A6 & A7) (B1 & B2 & B3 & B4 & B5 & B6 & B7). repeat split; congruence. Qed.
 
 Lemma agree_core w w' : core_eq w w' -> agree w -> agree w'.
-Proof. intros (A1 & A2 & A3 & A4 & A5). unfold agree. rewrite A1, A2, A3, A4, A5. auto. Qed.
+Proof. intros (A1 & A2 & A3 & A4 & A5 & A6 & A7). unfold agree. rewrite A1, A2, A3, A4, A5, A6, A7. auto. Qed.
 
 Lemma core_eq_terminated w w' : core_eq w w' -> is_terminated w' = is_terminated w.
 Proof. intros (A1 & _). rewrite !is_terminated_tv, A1. reflexivity. Qed.
@@ -288,7 +312,8 @@ Proof.
   - intro Ht'. apply (agree_core w w' Hcore). apply HJ. congruence.
 Qed.
 
-Ltac fr_done HQ := apply HQ; [reflexivity | repeat split; reflexivity | split; reflexivity].
+Ltac core_done := repeat split; first [ reflexivity | (apply marks_snoc; reflexivity) ].
+Ltac fr_done HQ := apply HQ; [reflexivity | core_done | split; reflexivity].
 
 Ltac use L := first [ eapply L | apply wp_bind_i; eapply L ].
 
@@ -305,8 +330,11 @@ Proof. intros w Q HQ. wp_prim. fr_done HQ. Qed.
 Lemma Fr_raise {A} e : Fr (raise e : LM A).
 Proof. intros w Q HQ. wp_prim. fr_done HQ. Qed.
 
-Lemma emit_Fr e : Fr (emit e).
-Proof. intros w Q HQ. unfold emit. wp_prim. fr_done HQ. Qed.
+Lemma emit_Fr e : is_mark e = false -> Fr (emit e).
+Proof.
+  intros He w Q HQ. unfold emit. wp_prim. apply HQ; [reflexivity | | split; reflexivity].
+  repeat split; try reflexivity. apply marks_snoc. exact He.
+Qed.
 
 Lemma schedule_Fr r : Fr (schedule r).
 Proof. intros w Q HQ. unfold schedule. wp_prim. fr_done HQ. Qed.
@@ -355,8 +383,9 @@ Proof. intros w Q HQ. unfold set_t0'. wp_prim. fr_done HQ. Qed.
 (* a change of the payload of a WAITING state keeps the core *)
 Lemma core_eq_waiting w w' fn m d wid wf fn' m' d' wid' wf' :
   st w = Some (SWaiting fn m d wid wf) -> st w' = Some (SWaiting fn' m' d' wid' wf') ->
-  pfut w' = pfut w -> closed w' = closed w -> hooks_alive w' = hooks_alive w -> outputs w' = outputs w -> core_eq w w'.
-Proof. intros H1 H2 A2 A3 A4 A5. unfold core_eq. rewrite H1, H2. auto. Qed.
+  pfut w' = pfut w -> closed w' = closed w -> hooks_alive w' = hooks_alive w -> outputs w' = outputs w ->
+  marks (trace w') = marks (trace w) -> cleanups w' = cleanups w -> core_eq w w'.
+Proof. intros H1 H2 A2 A3 A4 A5 A6 A7. unfold core_eq. rewrite H1, H2. repeat split; assumption. Qed.
 
 Lemma state_interrupt_Fr iid : Fr (state_interrupt iid).
 Proof.
@@ -417,13 +446,14 @@ Lemma hook_ok name w (Q : result unit -> world -> Prop) :
   TI w -> (forall w', RelT w w' -> Q (Ok tt) w') -> wp (hook name) Q w.
 Proof.
   intros [Hn Ht] HQ. unfold hook, emit. repeat wp_prim. unfold nofault in Hn. rewrite Hn. wp_prim.
-  apply HQ. split; [split; [exact Hn | exact Ht]|]. split; [repeat split | reflexivity].
+  apply HQ. split; [split; [exact Hn | exact Ht]|]. split; [core_done | reflexivity].
 Qed.
 
 (* Future.set_result / set_exception *)
 Lemma pfut_set_spec f w (Q : result unit -> world -> Prop) :
   (forall r w', cfg w' = cfg w -> transitioning w' = transitioning w -> transition_failing w' = transition_failing w ->
                 st w' = st w -> closed w' = closed w -> hooks_alive w' = hooks_alive w -> outputs w' = outputs w ->
+                trace w' = trace w -> cleanups w' = cleanups w ->
                 match r with Ok _ => pfut w' = f | Err _ => pfut w' = pfut w end -> Q r w') ->
   wp (pfut_set f) Q w.
 Proof.
@@ -442,13 +472,13 @@ Definition pf_entered (ns : pstate) (w w' : world) : Prop :=
 (* the fields other than the future are framed *)
 Definition side_eq (w w' : world) : Prop :=
   TI w' /\ transition_failing w' = transition_failing w /\ tv (st w') = tv (st w) /\ closed w' = closed w
-  /\ hooks_alive w' = hooks_alive w /\ outputs w' = outputs w.
+  /\ hooks_alive w' = hooks_alive w /\ outputs w' = outputs w /\ marks (trace w') = marks (trace w) /\ cleanups w' = cleanups w.
 
 Lemma side_eq_of_RelT w w' : RelT w w' -> side_eq w w' /\ pfut w' = pfut w.
-Proof. intros (T & (A1 & A2 & A3 & A4 & A5) & F). repeat split; try assumption; apply T. Qed.
+Proof. intros (T & (A1 & A2 & A3 & A4 & A5 & A6 & A7) & F). repeat split; try assumption; apply T. Qed.
 
 Lemma side_eq_trans a b c : side_eq a b -> side_eq b c -> side_eq a c.
-Proof. intros (_ & A1 & A2 & A3 & A4 & A5) (T & B1 & B2 & B3 & B4 & B5). repeat split; try apply T; congruence. Qed.
+Proof. intros (_ & A1 & A2 & A3 & A4 & A5 & A6 & A7) (T & B1 & B2 & B3 & B4 & B5 & B6 & B7). repeat split; try apply T; congruence. Qed.
 
 (* writing back a world that differs from the current one outside the configuration, the core and the flags *)
 Lemma frame_Post w w' :
@@ -468,7 +498,7 @@ Lemma put_Kat w w' :
 Proof. intros A B C D Q HJ HQ. wp_prim. apply HQ. apply frame_Post; assumption. Qed.
 
 Ltac put_frame := apply put_Kat; [reflexivity | repeat split; reflexivity | reflexivity | reflexivity].
-Ltac kfr := apply Fr_K; first [ apply emit_Fr | apply schedule_Fr | apply hook_Fr | apply set_act_fut_Fr | apply cancel_act_Fr
+Ltac kfr := apply Fr_K; first [ (apply emit_Fr; reflexivity) | apply schedule_Fr | apply hook_Fr | apply set_act_fut_Fr | apply cancel_act_Fr
                                | apply set_interrupt_action_Fr | apply set_interrupt_action_from_Fr | apply fresh_Fr | apply set_t0_Fr
                                | apply set_t0'_Fr | apply state_interrupt_Fr | apply state_recall_Fr | apply resume_Fr
                                | apply Fr_ret | apply Fr_raise
@@ -481,33 +511,64 @@ Lemma pfut_set_side f w1 (Q' : result unit -> world -> Prop) :
       match r with Ok _ => pfut w2 = f | Err _ => pfut w2 = pfut w1 end -> Q' r w2) ->
   wp (pfut_set f) Q' w1.
 Proof.
-  intros [N1 T1] H. apply pfut_set_spec. intros r w2 A B C D E F G I.
+  intros [N1 T1] H. apply pfut_set_spec. intros r w2 A B C D E F G G2 G3 I.
   assert (SE : side_eq w1 w2).
-  { split; [split; [unfold nofault in *; congruence | congruence]|]. repeat split; try assumption. rewrite D. reflexivity. }
+  { split; [split; [unfold nofault in *; congruence | congruence]|]. repeat split; try assumption; [rewrite D | rewrite G2]; reflexivity. }
   apply H; assumption.
+Qed.
+
+(* a frame on everything but the marks of the trace, which grow by [ex] *)
+Definition RelM (w w' : world) (ex : list event) : Prop :=
+  TI w' /\ transition_failing w' = transition_failing w /\ tv (st w') = tv (st w) /\ pfut w' = pfut w /\ closed w' = closed w
+  /\ hooks_alive w' = hooks_alive w /\ outputs w' = outputs w /\ marks (trace w') = marks (trace w) ++ ex
+  /\ cleanups w' = cleanups w.
+
+Lemma RelM_of_RelT w w' : RelT w w' -> RelM w w' [].
+Proof. intros (T & (A1 & A2 & A3 & A4 & A5 & A6 & A7) & F). repeat split; try assumption; try apply T. rewrite app_nil_r. exact A6. Qed.
+
+Lemma RelT_of_RelM w w' : RelM w w' [] -> RelT w w'.
+Proof.
+  intros (T & F & A1 & A2 & A3 & A4 & A5 & A6 & A7). rewrite app_nil_r in A6.
+  split; [exact T|]. split; [repeat split; assumption | exact F].
+Qed.
+
+Lemma RelM_RelT a b c ex : RelM a b ex -> RelT b c -> RelM a c ex.
+Proof.
+  intros (_ & F & A1 & A2 & A3 & A4 & A5 & A6 & A7) (T & (B1 & B2 & B3 & B4 & B5 & B6 & B7) & G).
+  repeat split; try apply T; congruence.
+Qed.
+
+Lemma RelT_RelM a b c ex : RelT a b -> RelM b c ex -> RelM a c ex.
+Proof.
+  intros (_ & (B1 & B2 & B3 & B4 & B5 & B6 & B7) & G) (T & F & A1 & A2 & A3 & A4 & A5 & A6 & A7).
+  repeat split; try apply T; congruence.
 Qed.
 
 Section Reentrant.
   Variable rec_ctl : ctl -> LM cret.
   Hypothesis Hrec : forall c, K (rec_ctl c).
 
-  (* EventHelper.fire_event at control level *)
-  Lemma fire_K name : K (fire rec_ctl name).
+  (* EventHelper.fire_event at control level (not a terminal notification) *)
+  Lemma fire_K name : term_note name = false -> K (fire rec_ctl name).
   Proof.
-    intro w. unfold fire. kauto. apply K_mapM. intros ls wx. kauto. apply Hrec.
+    intros Hn w. unfold fire. kstep. kstep; [put_frame|]. intro w1. kstep; [apply Fr_K; apply emit_Fr; exact Hn|].
+    intro w2. apply K_mapM. intros ls wx. kauto. apply Hrec.
   Qed.
 
-  (* inside a transition nothing raises out of fire *)
+  (* inside a transition nothing raises out of fire; the notification is recorded once *)
   Lemma fire_ok name w (Q : result unit -> world -> Prop) :
-    TI w -> (forall w', RelT w w' -> Q (Ok tt) w') -> wp (fire rec_ctl name) Q w.
+    TI w -> (forall w', RelM w w' (if term_note name then [EvListener name] else []) -> Q (Ok tt) w') -> wp (fire rec_ctl name) Q w.
   Proof.
     intros HT HQ. unfold fire, emit. repeat wp_prim.
-    match goal with |- wp _ _ ?w1 => assert (H1 : RelT w w1) by (split; [exact HT | split; [repeat split | reflexivity]]) end.
-    eapply wp_mapM_inv with (I := fun s => RelT w s); [exact H1 | | intros s' H; apply HQ; exact H].
-    intros ls s1 _ R1. wp_case.
-    - do 2 wp_prim. eapply (Kat_Tat _ _ (Hrec _ _)); [apply R1|]. intros r s2 R2. cbv beta iota.
-      wp_prim. split; [reflexivity|]. eapply RelT_trans; [exact R1|]. eapply RelT_trans; [exact R2|].
-      destruct R2 as (T2 & _). split; [exact T2|]. split; [repeat split | reflexivity].
+    set (ex := if term_note name then [EvListener name] else []) in *.
+    match goal with |- wp _ _ ?w1 => assert (H1 : RelM w w1 ex) end.
+    { repeat split; try reflexivity; try apply HT. cbn [trace]. unfold RecordSet.set; cbn. rewrite marks_app. cbn. subst ex.
+      destruct (term_note name); reflexivity. }
+    eapply wp_mapM_inv with (I := fun s => RelM w s ex); [exact H1 | | intros s' H; apply HQ; exact H].
+    intros ls s1 _ R1. assert (T1 : TI s1) by apply R1. wp_case.
+    - do 2 wp_prim. eapply (Kat_Tat _ _ (Hrec _ _)); [exact T1|]. intros r s2 R2. cbv beta iota.
+      wp_prim. split; [reflexivity|]. eapply RelM_RelT; [exact R1|]. eapply RelT_trans; [exact R2|].
+      destruct R2 as (T2 & _). split; [exact T2|]. split; [core_done | reflexivity].
     - wp_prim. auto.
   Qed.
 
@@ -536,11 +597,11 @@ Section Reentrant.
     - use hook_ok; [exact HT|]. intros w1 R1. cbv beta iota. destruct (side_eq_of_RelT _ _ R1) as [S1 P1]. do 2 wp_prim. wp_case.
       + wp_prim. apply HQ; assumption.
       + apply Hps; [|apply R1]. intros r w2 S2 P2. destruct r.
-        * wp_prim. apply HQ; [eapply side_eq_trans; eauto|]. cbn. rewrite P2. destruct S1 as (_ & _ & _ & _ & _ & O1). rewrite O1. reflexivity.
+        * wp_prim. apply HQ; [eapply side_eq_trans; eauto|]. cbn. rewrite P2. destruct S1 as (_ & _ & _ & _ & _ & O1 & _). rewrite O1. reflexivity.
         * apply HQ; [eapply side_eq_trans; eauto | congruence].
     - use hook_ok; [exact HT|]. intros w1 R1. cbv beta iota. destruct (side_eq_of_RelT _ _ R1) as [S1 P1]. do 3 wp_prim. wp_case.
       + repeat wp_prim. apply HQ; [|reflexivity].
-        destruct S1 as (T1 & F1 & V1 & C1 & K1 & O1). split; [exact T1|]. repeat split; assumption.
+        destruct S1 as (T1 & F1 & V1 & C1 & K1 & O1 & M1 & L1). split; [exact T1|]. repeat split; assumption.
       + apply pfut_set_side; [apply R1|]. intros r w2 S2 P2. destruct r.
         * wp_prim. apply HQ; [eapply side_eq_trans; eauto|]. cbn. exact P2.
         * apply HQ; [eapply side_eq_trans; eauto | congruence].
@@ -554,10 +615,10 @@ Section Reentrant.
         * apply HQ; [eapply side_eq_trans; eauto|]. rewrite P2. exact P1. }
       destruct (pfut w1s) eqn:Hp; try exact Hset.
       repeat wp_prim. apply HQ; [|reflexivity].
-      destruct S1 as (T1 & F1 & V1 & C1 & K1 & O1). split; [exact T1|]. repeat split; assumption.
+      destruct S1 as (T1 & F1 & V1 & C1 & K1 & O1 & M1 & L1). split; [exact T1|]. repeat split; assumption.
   Qed.
   Lemma RelT_of_side w w' : side_eq w w' -> pfut w' = pfut w -> RelT w w'.
-  Proof. intros (T & F & V & C & H & O) P. split; [exact T|]. split; [repeat split; assumption | exact F]. Qed.
+  Proof. intros (T & F & V & C & H & O & M & L) P. split; [exact T|]. split; [repeat split; assumption | exact F]. Qed.
 
   Lemma wp_conj {A} (m : LM A) (Q1 Q2 : result A -> world -> Prop) w :
     wp m Q1 w -> wp m Q2 w -> wp m (fun r s => Q1 r s /\ Q2 r s) w.
@@ -593,36 +654,42 @@ Section Reentrant.
       destruct wf; [|wp_prim; apply HQ; [exact R1 | intros _; exact Hlive]].
       do 3 wp_prim.
       match goal with |- wp _ _ ?w2 => assert (R2 : RelT w w2) end.
-      { destruct R1 as (T1 & (A1 & A2 & A3 & A4 & A5) & F1). split; [exact T1|]. split; [|exact F1].
+      { destruct R1 as (T1 & (A1 & A2 & A3 & A4 & A5 & A6 & A7) & F1). split; [exact T1|]. split; [|exact F1].
         repeat split; try assumption. cbn. rewrite Hst. reflexivity. }
       wp_prim. wp_case; try (wp_prim; apply HQ; [exact R2 | intros _; exact Hlive]).
       wp_case; [|apply HQ; [exact R2 | intros _; exact Hlive]].
       unfold schedule. wp_prim. apply HQ; [|intros _; exact Hlive].
-      eapply RelT_trans; [exact R2|]. destruct R2 as (T2 & _). split; [exact T2|]. split; [repeat split | reflexivity]. }
+      eapply RelT_trans; [exact R2|]. destruct R2 as (T2 & _). split; [exact T2|]. split; [core_done | reflexivity]. }
     wp_prim. wp_case.
     - destruct cur; first [ wp_prim; cbv beta iota; apply Hrest; apply RelT_refl; exact HT
                           | eapply hook_ok; [exact HT|]; intros w1 R1; cbv beta iota; apply Hrest; exact R1 ].
     - cbv beta iota. apply Hrest. apply RelT_refl. exact HT.
   Qed.
-  (* on_entered: hooks and listeners; nothing raises, the core is framed *)
+  (* on_entered: hooks and listeners; nothing raises; a terminal state is notified once *)
+  Definition note_ev (s : option pstate) : list event :=
+    match tv s with Some x => [EvListener (note_of x)] | None => [] end.
+
   Lemma on_entered_ok w0 w (Q : result unit -> world -> Prop) :
-    TI w -> (forall w', RelT w w' -> Q (Ok tt) w') -> wp (on_entered rec_ctl w0) Q w.
+    TI w -> (forall w', RelM w w' (note_ev (st w)) -> Q (Ok tt) w') -> wp (on_entered rec_ctl w0) Q w.
   Proof.
     intros HT HQ. unfold on_entered. do 2 wp_prim.
-    assert (Hhf : forall h l, wp (bind (hook h) (fun _ => fire rec_ctl l)) Q w).
-    { intros h l. use hook_ok; [exact HT|]. intros w1 R1. cbv beta iota. apply fire_ok; [apply R1|].
-      intros w2 R2. apply HQ. eapply RelT_trans; eauto. }
-    destruct (st w) as [[]|]; try apply Hhf; try (wp_prim; apply HQ; apply RelT_refl; exact HT).
+    assert (Hhf : forall h l, (if term_note l then [EvListener l] else []) = note_ev (st w) ->
+                              wp (bind (hook h) (fun _ => fire rec_ctl l)) Q w).
+    { intros h l El. use hook_ok; [exact HT|]. intros w1 R1. cbv beta iota. apply fire_ok; [apply R1|].
+      intros w2 R2. apply HQ. rewrite <- El. eapply RelT_RelM; eauto. }
+    destruct (st w) as [[]|]; try (apply Hhf; reflexivity);
+      try (wp_prim; apply HQ; apply RelM_of_RelT; apply RelT_refl; exact HT).
     use hook_ok; [exact HT|]. intros w1 R1. cbv beta iota. do 2 wp_prim. apply fire_ok.
     - destruct R1 as (T1 & _). exact T1.
-    - intros w2 R2. apply HQ. eapply RelT_trans; [exact R1|]. eapply RelT_trans; [|exact R2].
-      destruct R1 as (T1 & _). split; [exact T1|]. split; [repeat split | reflexivity].
+    - intros w2 R2. apply HQ. eapply RelT_RelM; [exact R1|]. eapply RelT_RelM; [|exact R2].
+      destruct R1 as (T1 & _). split; [exact T1|]. split; [core_done | reflexivity].
   Qed.
 
   (* the outcome of a successful _enter_next_state *)
   Definition entered (ns : pstate) (w w' : world) : Prop :=
     TI w' /\ transition_failing w' = transition_failing w /\ tv (st w') = tv (Some ns) /\ closed w' = closed w
-    /\ hooks_alive w' = hooks_alive w /\ outputs w' = outputs w /\ pf_entered ns w w'.
+    /\ hooks_alive w' = hooks_alive w /\ outputs w' = outputs w /\ pf_entered ns w w'
+    /\ marks (trace w') = marks (trace w) ++ note_ev (Some ns) /\ cleanups w' = cleanups w.
 
   Lemma pf_entered_eq ns w w1 w2 : pf_entered ns w w1 -> pfut w2 = pfut w1 -> pf_entered ns w w2.
   Proof. unfold pf_entered. intros H E. destruct ns; congruence. Qed.
@@ -637,42 +704,59 @@ Section Reentrant.
     - wp_prim. apply HQ. apply RelT_of_side; assumption.
     - do 4 wp_prim. unfold emit. do 3 wp_prim.
       match goal with |- wp _ _ ?w2 => set (w2s := w2) end.
-      destruct S1 as (T1 & F1 & V1 & C1 & K1 & O1).
+      destruct S1 as (T1 & F1 & V1 & C1 & K1 & O1 & M1 & L1).
       assert (T2 : TI w2s) by exact T1.
+      assert (M2 : marks (trace w2s) = marks (trace w1)).
+      { subst w2s. cbn [trace]. unfold RecordSet.set; cbn. apply marks_snoc. reflexivity. }
       wp_prim. replace (hooks_alive w2s) with true by (symmetry; change (hooks_alive w1 = true); congruence).
-      unfold when. use on_entered_ok; [exact T2|]. intros w3 (T3 & (A1 & A2 & A3 & A4 & A5) & F3). cbv beta iota. wp_prim.
+      unfold when. use on_entered_ok; [exact T2|]. intros w3 (T3 & F3 & A1 & A2 & A3 & A4 & A5 & A6 & A7). cbv beta iota. wp_prim.
       apply HQ. split; [exact T3|]. split; [rewrite F3; exact F1|]. split; [rewrite A1; reflexivity|].
       split; [rewrite A3; exact C1|]. split; [rewrite A4; exact K1|]. split; [rewrite A5; exact O1|].
-      eapply pf_entered_eq; [exact P1 | exact A2].
+      split; [eapply pf_entered_eq; [exact P1 | exact A2]|].
+      split; [rewrite A6, M2, M1; reflexivity | rewrite A7; exact L1].
     - apply HQ. apply RelT_of_side; assumption.
+  Qed.
+
+  (* the registered cleanups are run in order, each once *)
+  Lemma emit_cleanups_spec l : forall w (Q : result unit -> world -> Prop),
+    TI w ->
+    (forall w', RelM w w' (map EvCleanup l) -> Q (Ok tt) w') ->
+    wp (mapM_ (fun c => emit (EvCleanup c)) l) Q w.
+  Proof.
+    induction l as [|c l IH]; intros w Q HT HQ; cbn [mapM_ map].
+    - wp_prim. apply HQ. apply RelM_of_RelT. apply RelT_refl. exact HT.
+    - unfold emit at 1. do 2 wp_prim. apply IH; [exact HT|]. intros w' (T & F & A1 & A2 & A3 & A4 & A5 & A6 & A7). apply HQ.
+      repeat split; try assumption; try apply T. rewrite A6. cbn [trace]. unfold RecordSet.set; cbn. rewrite marks_app. cbn.
+      rewrite <- app_assoc. reflexivity.
   Qed.
 
   (* on_terminated of a process that is not closed yet: hook, release of a paused stepping task, close *)
   Lemma on_terminated_spec w (Q : result unit -> world -> Prop) :
     TI w -> closed w = false ->
     (forall w', TI w' -> transition_failing w' = transition_failing w -> tv (st w') = tv (st w) -> pfut w' = pfut w ->
-                outputs w' = outputs w -> closed w' = true -> hooks_alive w' = false -> Q (Ok tt) w') ->
+                outputs w' = outputs w -> closed w' = true -> hooks_alive w' = false ->
+                marks (trace w') = marks (trace w) ++ map EvCleanup (cleanups w) -> cleanups w' = [] -> Q (Ok tt) w') ->
     wp on_terminated Q w.
   Proof.
     intros HT Hc HQ. unfold on_terminated.
     assert (Hclose : forall w1, RelT w w1 -> wp close Q w1).
-    { intros w1 (T1 & (A1 & A2 & A3 & A4 & A5) & F1). unfold close. do 2 wp_prim. rewrite A3, Hc. unfold on_close.
-      use hook_ok; [exact T1|]. intros w2 (T2 & (B1 & B2 & B3 & B4 & B5) & F2). cbv beta iota. do 4 wp_prim.
-      eapply wp_mapM_inv with (I := fun s => RelT w2 s).
-      - apply RelT_refl. exact T2.
-      - intros c s1 _ R1. unfold emit. wp_prim. split; [reflexivity|]. eapply RelT_trans; [exact R1|].
-        destruct R1 as (Ts & _). split; [exact Ts|]. split; [repeat split | reflexivity].
-      - intros s' (T3 & (C1 & C2 & C3 & C4 & C5) & F3). cbv beta iota. do 2 wp_prim.
-        apply HQ; cbn; try reflexivity; try apply T3; congruence. }
+    { intros w1 (T1 & (A1 & A2 & A3 & A4 & A5 & A6 & A7) & F1). unfold close. do 2 wp_prim. rewrite A3, Hc. unfold on_close.
+      use hook_ok; [exact T1|]. intros w2 (T2 & (B1 & B2 & B3 & B4 & B5 & B6 & B7) & F2). cbv beta iota. do 4 wp_prim.
+      apply emit_cleanups_spec; [exact T2|].
+      intros s' (T3 & F3 & C1 & C2 & C3 & C4 & C5 & C6 & C7). cbv beta iota. do 2 wp_prim.
+      apply HQ; cbn; try reflexivity; try apply T3; try congruence.
+      change (marks (trace s') = marks (trace w) ++ map EvCleanup (cleanups w)). rewrite C6, B6, A6, B7, A7. reflexivity. }
     use hook_ok; [exact HT|]. intros w1 R1. cbv beta iota. do 3 wp_prim.
     repeat wp_case; cbv beta iota; try (wp_prim; cbv beta iota; apply Hclose; exact R1).
     - unfold schedule. wp_prim. cbv beta iota. apply Hclose. eapply RelT_trans; [exact R1|].
-      destruct R1 as (T1 & _). split; [exact T1|]. split; [repeat split | reflexivity].
+      destruct R1 as (T1 & _). split; [exact T1|]. split; [core_done | reflexivity].
     - apply Hclose; exact R1.
   Qed.
+
   (* facts about a live process whose views agree *)
   Lemma agree_live w : agree w -> is_terminated w = false ->
-    unresolved (pfut w) /\ closed w = false /\ hooks_alive w = true /\ tv (st w) = None.
+    unresolved (pfut w) /\ closed w = false /\ hooks_alive w = true /\ tv (st w) = None
+    /\ marks (trace w) = [] /\ cleanups w = [0].
   Proof.
     unfold agree. rewrite is_terminated_tv. destruct (tv (st w)) as [s|] eqn:E; [discriminate|]. intros H _. cbn in H. tauto.
   Qed.
@@ -682,12 +766,12 @@ Section Reentrant.
     (forall w3, TI w3 -> transition_failing w3 = transition_failing w1 -> agree w3 -> Q (Ok tt) w3) ->
     wp (bind get (fun w' => when (is_terminated w') on_terminated)) Q w2.
   Proof.
-    intros (T2 & F2 & V2 & C2 & K2 & O2 & P2) Ha Hl HQ. destruct (agree_live _ Ha Hl) as (U1 & C1 & K1 & V1).
+    intros (T2 & F2 & V2 & C2 & K2 & O2 & P2 & M2 & L2) Ha Hl HQ. destruct (agree_live _ Ha Hl) as (U1 & C1 & K1 & V1 & M1 & L1).
     do 2 wp_prim. rewrite is_terminated_tv, V2.
-    destruct ns; cbn [tv pf_entered when] in *.
-    1-3: (wp_prim; apply HQ; [exact T2 | exact F2 | unfold agree; rewrite V2, P2, C2, K2, C1, K1; cbn; auto]).
-    all: (apply on_terminated_spec; [exact T2 | congruence |]; intros w3 T3 F3 V3 P3 O3 C3 K3; apply HQ; [exact T3 | congruence |];
-          unfold agree; rewrite V3, V2, P3, P2, C3, K3, O3; cbn; repeat split; congruence).
+    destruct ns; cbn [tv pf_entered when note_ev note_of] in *.
+    1-3: (wp_prim; apply HQ; [exact T2 | exact F2 | unfold agree; rewrite V2, P2, C2, K2, C1, K1, M2, M1, L2, L1; cbn; auto]).
+    all: (apply on_terminated_spec; [exact T2 | congruence |]; intros w3 T3 F3 V3 P3 O3 C3 K3 M3 L3; apply HQ; [exact T3 | congruence |];
+          unfold agree; rewrite V3, V2, P3, P2, C3, K3, O3, M3, M2, M1, L3, L2, L1; cbn; repeat split; congruence).
   Qed.
 
   Definition body_rest (ns : pstate) : LM unit :=
@@ -791,7 +875,7 @@ Section Reentrant.
     intro Hpre. unfold do_pause. kstep; [|kauto].
     kstep.
     - destruct next; [apply transition_to_Kat; exact Hpre | apply Kat_ret].
-    - kauto. apply fire_K.
+    - kauto. apply fire_K. reflexivity.
   Qed.
 
   Lemma pause_K msg : K (pause rec_ctl msg).
@@ -800,7 +884,7 @@ Section Reentrant.
   Qed.
 
   Lemma play_K : K (play rec_ctl).
-  Proof. intro w. unfold play. kauto; apply fire_K. Qed.
+  Proof. intro w. unfold play. kauto; apply fire_K; reflexivity. Qed.
 
   Lemma kill_K msg : K (kill rec_ctl msg).
   Proof.
@@ -890,7 +974,7 @@ Proof.
     specialize (A2 T2). assert (Hc2 : closed w2s = false) by (destruct E1 as (_ & _ & X & _); change (closed w1 = false); congruence).
     pose proof (agree_open _ A2 Hc2) as V2. unfold agree in *. change (tv (st w3s)) with (tv (st w2s)). rewrite V2 in *. exact A2. }
   assert (Hrest : Sat (bind (emit (EvOutput path v dyn)) (fun _ => fire (do_ctl reent_fuel) "on_output_emitted")) w3s).
-  { kstep; [sfr|]. intro wz. apply Kat_Sat. apply fire_K. apply do_ctl_K. }
+  { kstep; [sfr|]. intro wz. apply Kat_Sat. apply fire_K; [apply do_ctl_K | reflexivity]. }
   apply Hrest; [exact P3|]. intros r w' H'. apply HQ. exact H'.
 Qed.
 
@@ -1019,11 +1103,12 @@ Proof.
   - kstep; [apply Kat_Sat; apply ctl_observed_K | intro; intro; sfr].
   - kstep. destruct (pfut w) eqn:Hp; try apply Sat_ret.
     assert (Hc : forall w', cfg w' = cfg w -> st w' = st w -> closed w' = closed w -> hooks_alive w' = hooks_alive w ->
-                 outputs w' = outputs w -> transitioning w' = transitioning w -> transition_failing w' = transition_failing w ->
+                 outputs w' = outputs w -> marks (trace w') = marks (trace w) -> cleanups w' = cleanups w ->
+                 transitioning w' = transitioning w -> transition_failing w' = transition_failing w ->
                  pfut w' = PfCancelled -> PreS w -> PreS w').
-    { intros w' A B C D E F G P [(N & FI0 & Ag) T]. split; [|congruence]. split; [unfold nofault in *; congruence|]. split.
+    { intros w' A B C D E E2 E3 F G P [(N & FI0 & Ag) T]. split; [|congruence]. split; [unfold nofault in *; congruence|]. split.
       - unfold FI in *. rewrite F, G. exact FI0.
-      - intros _. specialize (Ag T). unfold agree in *. rewrite B, C, D, E, P. rewrite Hp in Ag.
+      - intros _. specialize (Ag T). unfold agree in *. rewrite B, C, D, E, E2, E3, P. rewrite Hp in Ag.
         destruct (tv (st w)) as [[]|]; cbn in *; try (destruct Ag as (X & _); discriminate);
           (split; [right; reflexivity | apply Ag]). }
     destruct (pfut_original w).
@@ -1050,7 +1135,7 @@ Qed.
 Lemma init_PreS c : cf_fault c = None -> PreS (init_world c).
 Proof.
   intro Hf. split; [|reflexivity]. split; [exact Hf|]. split; [intros _; reflexivity|]. intros _.
-  unfold agree. cbn. split; [left; reflexivity | split; reflexivity].
+  unfold agree. cbn. split; [left; reflexivity | repeat split; reflexivity].
 Qed.
 
 Lemma constructed_PreS c r w : cf_fault c = None -> construct_process c = (r, w) -> PreS w.
@@ -1069,14 +1154,21 @@ Proof.
   split; [apply A; exact T | exact T].
 Qed.
 
-(* the invariant spelled out *)
+(* the invariant spelled out; [marks (trace w)] = the terminal notifications sent to the listeners and the cleanups run, in order *)
 Theorem reports_agree c es w :
   cf_fault c = None -> run c es = Some w ->
   match st w with
-  | Some (SFinished _ _) => pfut w = PfResult (outputs w) /\ closed w = true /\ hooks_alive w = false
-  | Some (SExcepted e) => pfut w = PfExn e /\ closed w = true /\ hooks_alive w = false
-  | Some (SKilled m) => pfut w = PfExn (EKilled (killed_text m)) /\ closed w = true /\ hooks_alive w = false
+  | Some (SFinished _ _) =>
+      pfut w = PfResult (outputs w) /\ closed w = true /\ hooks_alive w = false
+      /\ marks (trace w) = [EvListener "on_process_finished"; EvCleanup 0] /\ cleanups w = []
+  | Some (SExcepted e) =>
+      pfut w = PfExn e /\ closed w = true /\ hooks_alive w = false
+      /\ marks (trace w) = [EvListener "on_process_excepted"; EvCleanup 0] /\ cleanups w = []
+  | Some (SKilled m) =>
+      pfut w = PfExn (EKilled (killed_text m)) /\ closed w = true /\ hooks_alive w = false
+      /\ marks (trace w) = [EvListener "on_process_killed"; EvCleanup 0] /\ cleanups w = []
   | _ => (pfut w = PfPending \/ pfut w = PfCancelled) /\ closed w = false /\ hooks_alive w = true
+         /\ marks (trace w) = [] /\ cleanups w = [0]
   end.
 Proof.
   intros Hf Hr. destruct (run_agrees _ _ _ Hf Hr) as [H _]. unfold agree in H. destruct (st w) as [[]|]; exact H.
@@ -1092,5 +1184,21 @@ Theorem terminated_iff_closed c es w :
   cf_fault c = None -> run c es = Some w -> closed w = is_terminated w /\ hooks_alive w = negb (is_terminated w).
 Proof.
   intros Hf Hr. pose proof (reports_agree _ _ _ Hf Hr) as H. unfold is_terminated.
-  destruct (st w) as [[]|]; cbn; destruct H as (_ & -> & ->); split; reflexivity.
+  destruct (st w) as [[]|]; cbn; destruct H as (_ & -> & -> & _); split; reflexivity.
+Qed.
+
+(* exactly one terminal notification, of the kind of the final state, and every registered cleanup exactly once — and none of
+   either while the process is live *)
+Theorem one_notification_one_cleanup c es w :
+  cf_fault c = None -> run c es = Some w ->
+  filter is_mark (trace w) =
+    match st w with
+    | Some (SFinished _ _) => [EvListener "on_process_finished"; EvCleanup 0]
+    | Some (SExcepted _) => [EvListener "on_process_excepted"; EvCleanup 0]
+    | Some (SKilled _) => [EvListener "on_process_killed"; EvCleanup 0]
+    | _ => []
+    end.
+Proof.
+  intros Hf Hr. pose proof (reports_agree _ _ _ Hf Hr) as H. fold (marks (trace w)).
+  destruct (st w) as [[]|]; destruct H as (_ & _ & _ & H & _); exact H.
 Qed.
